@@ -8,5 +8,5 @@ if [ ! -d $W ]; then git -C /repo worktree add --detach $W HEAD >/dev/null 2>&1 
 git -C $W checkout -q --detach $(git -C /repo rev-parse HEAD) && git -C $W checkout -q -- . && git -C $W clean -fdq -e target
 git -C $W apply "$PATCH" || { echo "patch does not apply"; exit 2; }
 cd "$(dirname "$0")/.."
-for p in "$@"; do echo "== $(basename $(dirname $PATCH)) / $p"; VERIF_ALT_REPO=$W bin/check $p 2>&1 | tail -2; done
+for p in "$@"; do echo "== $(basename $(dirname $PATCH)) / $p"; if [ -n "${VERIF_ALL_LINES:-}" ]; then VERIF_ALT_REPO=$W bin/check $p 2>&1 | grep -v conda; else VERIF_ALT_REPO=$W bin/check $p 2>&1 | tail -2; fi; done
 git -C $W checkout -q -- .
